@@ -264,6 +264,43 @@ pub fn decode_by_intermediate(dc: &Decaf) -> Vec<(BigUint, &'static str)> {
         .collect()
 }
 
+/// curve points (Z = 1) with affine x (kind 0), affine y (kind 1) or x*y (kind 2) equal to t
+pub fn points_with(dc: &Decaf, kind: u8, t: &BigUint) -> Vec<Pt> {
+    let f = dc.f();
+    let d = &dc.c.d;
+    let one = BigUint::one();
+    match kind {
+        0 => {
+            let xx = f.sqr(t);
+            let den = f.sub(&one, &f.mul(d, &xx));
+            if den.is_zero() {
+                return vec![];
+            }
+            match f.sqrt(&f.div(&f.add(&one, &xx), &den)) {
+                Some(y) => vec![Pt { x: t.clone(), y: y.clone() }, Pt { x: t.clone(), y: f.neg(&y) }],
+                None => vec![],
+            }
+        }
+        1 => point_from_v(dc, &f.sqr(t)).into_iter().map(|p| if p.y == *t { p } else { Pt { x: p.x.clone(), y: f.neg(&p.y) } }).collect(),
+        _ => {
+            // (xy)^2 = v (v-1)/(1+dv), v = y^2  =>  v^2 - v - t^2 (1 + d v) = 0
+            let t2 = f.sqr(t);
+            let eq: Poly = vec![f.neg(&t2), f.neg(&f.add(&one, &f.mul(&t2, d))), one.clone()];
+            let mut out = vec![];
+            for v in poly::roots(f, &eq) {
+                for p in point_from_v(dc, &v) {
+                    for q in [p.clone(), Pt { x: p.x.clone(), y: f.neg(&p.y) }] {
+                        if f.mul(&q.x, &q.y) == *t {
+                            out.push(q);
+                        }
+                    }
+                }
+            }
+            out
+        }
+    }
+}
+
 /// valid curve points with one of {x, y, u1 = (X+T)(X-T), T = xy} equal to a target (Z = 1)
 pub fn points_by_intermediate(dc: &Decaf) -> Vec<(Pt, &'static str)> {
     let f = dc.f();
